@@ -49,6 +49,8 @@ Definition ev_toks (e : ev) : list tok :=
   | EvRecycle => [TS "recycle"]
   | EvInterim => [TS "interim"]
   | EvUpgrade => [TS "upgrade"]
+  | EvCancelled => [TS "cancelled"]
+  | EvCrossTalk => [TS "crosstalk"]
   end.
 
 Definition cause_of (n : string) : option cause :=
@@ -84,6 +86,7 @@ Definition input_of (t : tok) : list input :=
     else if n =? "front_write_partial" then [IFrontWrite false]
     else if n =? "front_timeout" then [IFrontTimeout]
     else if n =? "back_timeout" then [IBackTimeout]
+    else if n =? "client_cancel" then [IClientCancel]
     else if n =? "client_close" then [IClientClose]
     else match cause_of n with Some k => [IConnect (Some k)] | None => [] end
   | _ => []
@@ -105,7 +108,7 @@ Definition step_op (st : rstate) (op : list tok) : rstate * list tok :=
       | [TN sst; TN ph; TN ka; TN fc; TN bc; TN pend; TN iw; TN ew] =>
         let s' := mkS (state_of sst) (s_attempts s) (zb fc) (phase_of ph) (zb bc) (zb pend) (zb ka)
                       (s_origin s) (s_done s) (s_clean s) (s_ropen s) (s_interim s) in
-        let c' := mkC (c_h2 c) (zb iw) (zb ew) (c_ftimer c) (c_btimer c) (c_closed c) in
+        let c' := mkC (c_h2 c) (zb iw) (zb ew) (c_ftimer c) (c_btimer c) (c_closed c) (c_bparked c) (c_bdirty c) in
         (mkr s' c', st_toks s' c')
       | _ => bad end
     else if name =? "esd" then (st, action_toks (esd T c s))
